@@ -138,6 +138,18 @@ func c07runMode(c *fw.Ctx, ctorSize int, ops []c07op, light, sparse bool) (nontr
 			fail("Slice of empty queue is non-nil %v", sl)
 			return false
 		}
+		if len(ref) > 0 && len(ref)%3 == 1 {
+			// a scan abandoned half-way: the loop body panics, the caller recovers
+			fw.Panics(func() {
+				n := 0
+				q.Each(func(int) bool {
+					if n++; n > len(ref)/2 {
+						panic("scan abandoned by its loop body")
+					}
+					return true
+				})
+			})
+		}
 		var each []int
 		q.Each(func(v int) bool { each = append(each, v); return true })
 		if !equalInts(each, ref) {
